@@ -491,6 +491,20 @@ func (tb *TermBuilder) IntBin(op string, t IntTy, a, b *Term, ovf func(*Term)) *
 		}
 		panic(engineErr("IntBin op %s", op))
 	}
+	if a.Sort.K == SReal {
+		// Real mode: Go integers relaxed to reals (no integrality); + - * only
+		var r *Term
+		switch op {
+		case "+", "-", "*":
+			r = tb.RealExact(op, a, b)
+		default:
+			panic(engineErr("operation %s on an integer in real mode", op))
+		}
+		if ovf != nil {
+			ovf(tb.InRange(r, t))
+		}
+		return r
+	}
 	if a.Sort.K != SInt {
 		panic(engineErr("IntBin on sort %s", a.Sort))
 	}
@@ -594,6 +608,9 @@ func (tb *TermBuilder) InRange(r *Term, t IntTy) *Term {
 	} else {
 		hi.Lsh(big.NewInt(1), uint(t.W))
 		hi.Sub(&hi, big.NewInt(1))
+	}
+	if r.Sort.K == SReal {
+		return tb.And(tb.Cmp("<=", IntTy{}, tb.RealConstR(new(big.Rat).SetInt(&lo)), r), tb.Cmp("<=", IntTy{}, r, tb.RealConstR(new(big.Rat).SetInt(&hi))))
 	}
 	return tb.And(tb.Cmp("<=", IntTy{}, tb.IntConst(&lo), r), tb.Cmp("<=", IntTy{}, r, tb.IntConst(&hi)))
 }
@@ -739,7 +756,7 @@ func (tb *TermBuilder) IntConv(from, to IntTy, a *Term, ovf func(*Term)) *Term {
 			return tb.mk(fmt.Sprintf("(_ sign_extend %d)", to.W-from.W), BV(to.W), a)
 		}
 		return tb.mk(fmt.Sprintf("(_ zero_extend %d)", to.W-from.W), BV(to.W), a)
-	case SInt:
+	case SInt, SReal:
 		if ovf != nil {
 			ovf(tb.InRange(a, to))
 		}
